@@ -560,10 +560,10 @@ def strat_object_history(draw, tier):
 
 
 PARTS = [
-    Part("image_object_histories", exec_object_history, strategy=strat_object_history, examples={"quick": 1600, "thorough": 100000}, shards={"quick": 16, "thorough": 16},
+    Part("image_object_histories", exec_object_history, strategy=strat_object_history, examples={"quick": 3200, "thorough": 100000}, shards={"quick": 16, "thorough": 16},
          budget_s={"quick": 60, "thorough": 900}, describe="one Image object through generated sequences of fill / update / save / touch; array and saved files vs the model after every step"),
     Part("buffer_semantics", exec_buffer, strategy=strat_buffer, examples={"quick": 6000, "thorough": 400000}, shards={"quick": 16, "thorough": 16},
          budget_s={"quick": 60, "thorough": 900}, describe="fill/update of maskable buffers in all eight modes against a numpy model"),
-    Part("tile_histories", exec_history, strategy=strat_history, examples={"quick": 480, "thorough": 30000}, shards={"quick": 16, "thorough": 16},
+    Part("tile_histories", exec_history, strategy=strat_history, examples={"quick": 960, "thorough": 30000}, shards={"quick": 16, "thorough": 16},
          budget_s={"quick": 70, "thorough": 1500}, describe="model-based histories of write / read / update / external file on one pyramid directory"),
 ]
